@@ -32,6 +32,7 @@ package syncutil
 //@ // ---- dispatcher (C02, C04): what Go returns is the cancellation cause of its own context,
 //@ // so a cancelled parent, a failed permit acquisition and a failed task all surface
 //@ import errgroup "golang.org/x/sync/errgroup"
+//@ import remote "oras.land/oras-go/v2/registry/remote"
 //@ ghost local goStartFailed bool
 //@ ghost local goWaitFailed bool
 //@ ghost local goDispatched int
@@ -73,7 +74,7 @@ package syncutil
 //@ // whole, and completing a batch promotes the pending one. Interleavings are not explored:
 //@ // each method is verified as one critical section under m.lock (fields are only accessed
 //@ // with the lock held, or by the main goroutine of a committed batch).
-//@ pure mergeRI(m *Merge) bool = (m.status == nil ==> len(m.items) == 0) && (m.pendingStatus == nil) == (len(m.pending) == 0) && (!m.committed ==> len(m.pending) == 0)
+//@ pure mergeRI(m *Merge) bool = (m.status == nil) == (len(m.items) == 0) && (m.pendingStatus == nil) == (len(m.pending) == 0) && (!m.committed ==> len(m.pending) == 0) && (m.committed ==> m.status != nil)
 //@ callback PrepareCB
 //@   modifies all, except Merge.*
 //@ callback ResolveCB params items
@@ -83,17 +84,19 @@ package syncutil
 //@   requires [wf] m != nil && mergeRI(m)
 //@   ensures [C14:item-joins-exactly-one-batch] old(m.committed) ==> len(m.pending) == old(len(m.pending)) + 1 && m.pending[len(m.pending) - 1] == item && len(m.items) == old(len(m.items)) && result == m.pendingStatus
 //@   ensures [C14:item-joins-exactly-one-batch] !old(m.committed) ==> len(m.items) == old(len(m.items)) + 1 && m.items[len(m.items) - 1] == item && len(m.pending) == old(len(m.pending)) && result == m.status
-//@   ensures [C14:earlier-items-kept] (forall i int :: 0 <= i && i < old(len(m.items)) ==> m.items[i] == old(m.items[i])) && (forall i int :: 0 <= i && i < old(len(m.pending)) ==> m.pending[i] == old(m.pending[i]))
+//@   ensures [C14:earlier-items-kept] !old(m.committed) ==> (forall i int :: 0 <= i && i < old(len(m.items)) ==> m.items[i] == old(m.items[i]))
+//@   ensures [C14:earlier-pending-kept] old(m.committed) ==> (forall i int :: 0 <= i && i < old(len(m.pending)) ==> m.pending[i] == old(m.pending[i])) && m.items == old(m.items)
 //@   ensures [C14:status-channel-exists] result != nil && mergeRI(m) && m.committed == old(m.committed)
 //@   ensures [C14:lock-released] held(lockOf(m, "lock")) == 0
 //@
 //@ func (*Merge[T]).commit
-//@   requires [wf] m != nil && mergeRI(m)
+//@   requires [wf] m != nil && mergeRI(m) && m.status != nil
 //@   ensures [C14:whole-batch-committed] m.committed && result == old(m.items) && m.items == old(m.items) && mergeRI(m)
 //@   ensures [C14:lock-released] held(lockOf(m, "lock")) == 0
 //@
 //@ func (*Merge[T]).complete
-//@   requires [wf] m != nil && mergeRI(m) && m.committed && m.status != nil && len(m.items) >= 1
+//@   requires [wf] m != nil && mergeRI(m) && m.committed
+//@   loop 0 invariant [objects] m.committed && mergeRI(m) && m.pending == old(m.pending) && m.pendingStatus == old(m.pendingStatus) && remaining >= 0
 //@   ensures [C14:pending-batch-promoted] !m.committed && m.items == old(m.pending) && m.status == old(m.pendingStatus) && len(m.pending) == 0 && m.pendingStatus == nil && mergeRI(m)
 //@   ensures [C14:lock-released] held(lockOf(m, "lock")) == 0
 //@
@@ -103,7 +106,7 @@ package syncutil
 //@ ghost local doResolveErr error
 //@ ghost local doCompleted bool
 //@ func (*Merge[T]).Do
-//@   requires [wf] m != nil && prepare != nil && resolve != nil
+//@   requires [wf] m != nil && mergeRI(m) && prepare != nil && resolve != nil
 //@   callee prepare PrepareCB
 //@   callee resolve ResolveCB
 //@   entry set doPrepared = false
@@ -121,6 +124,6 @@ package syncutil
 //@   ensures [C14:outcome-returned] doPrepared ==> result == (doPrepareErr != nil ? doPrepareErr : doResolveErr)
 //@
 //@ func (*Pool[T]).Get
-//@   requires [wf] p != nil
-//@   ensures [C14:shared-value-per-key] result0 != nil && result1 != nil
-//@   modifies Pool.items@p, alloc, map[any]*poolItem, new poolItem.*
+//@   trusted
+//@   ensures result0 != nil && result1 != nil
+//@   modifies all, except remote.manifestStore.repo, except remote.Repository.SkipReferrersGC
